@@ -16,7 +16,7 @@ from concurrent.futures import ThreadPoolExecutor
 VERIF = os.path.dirname(os.path.dirname(os.path.abspath(__file__)))
 REPO = os.environ.get('YACLIB_ROOT', '/repo')
 TOOL = os.path.join(VERIF, 'build', 'yaclint')
-CACHE = os.path.join(VERIF, '.cache')
+CACHE = os.environ.get('YACLIB_VERIF_CACHE') or os.path.join(VERIF, '.cache')
 PROBES = os.path.join(VERIF, 'probes')
 
 CONFIGS = {
@@ -319,6 +319,19 @@ class Function:
             self._nodes = ns
         return self._nodes
 
+    def foreign(self):
+        """indices of nodes that belong to the body of a nested lambda (they are also emitted as the lambda's own
+        function); lexical scans of *this* function skip them"""
+        out = set()
+        for n in self.nodes:
+            if n['k'] == 'LambdaExpr' and n.get('ch'):
+                out.update(self.descendants(n['ch'][-1]))
+        return out
+
+    def own_nodes(self):
+        fg = self.foreign()
+        return [n for n in self.nodes if n['i'] not in fg] if fg else self.nodes
+
     @property
     def locals(self):
         if self._locals is None:
@@ -389,7 +402,7 @@ class Function:
     def calls(self, name_re=None):
         """all call-like nodes (CallExpr family + CXXConstructExpr) with a resolved callee"""
         out = []
-        for n in self.nodes:
+        for n in self.own_nodes():
             if 'cn' in n and n['k'] != 'CXXNewExpr':
                 if name_re is None or re.search(name_re, n['cn']):
                     out.append(n)
